@@ -46,105 +46,105 @@ def opt_precedence(repo, res):
     go = m.func("get_options")
     lo = m.func("_load_options")
     res.functions.update({go.key, lo.key})
-    # _load_options: returned tuple order
-    rets = [n for n in walk_no_nested(lo.node) if isinstance(n, ast.Return)]
-    if len(rets) != 1 or not isinstance(rets[0].value, ast.Tuple) or len(rets[0].value.elts) != 2:
-        raise AnalysisError("_load_options does not return a 2-tuple")
-    sl = Slicer(lo.node)
-    first, second = rets[0].value.elts
-    # json.load(f) <- f from `with open(<path>) as f` ; associate each result name with the path it was read from
-    path_of = {}
-    for w in [n for n in walk_no_nested(lo.node) if isinstance(n, ast.With)]:
-        opened = None
-        for it in w.items:
-            if isinstance(it.context_expr, ast.Call) and call_name(it.context_expr) == "open" and it.context_expr.args:
-                opened = it.context_expr.args[0]
-        if opened is None:
+    # both functions are interpreted over a virtual file system and environment; the merged dict is compared with the documented precedence
+    from ..absint import Interp, Node, PyNative, Raised, _PyCall
+    from ..lnodes_model import load_classes
+
+    class _P(PyNative):
+        def __init__(self, *parts):
+            self.p = "/".join(str(x).rstrip("/") if i < len(parts) - 1 else str(x) for i, x in enumerate(parts)).replace("//", "/")
+
+        def __truediv__(self, o):
+            return _P(self.p, o)
+
+        def __rtruediv__(self, o):
+            return _P(o, self.p)
+
+        def joinpath(self, *o):
+            return _P(self.p, *o)
+
+        def __str__(self):
+            return self.p
+
+        def __fspath__(self):
+            return self.p
+
+        def __eq__(self, o):
+            return str(o) == self.p
+
+        def __hash__(self):
+            return hash(self.p)
+
+    table_node = m.assign("FFCX_DEFAULT_OPTIONS")
+    try:
+        defaults = {const_value(k): const_value(v.elts[1]) for k, v in zip(table_node.keys, table_node.values)}
+    except Exception as e:
+        raise AnalysisError(f"FFCX_DEFAULT_OPTIONS is not a literal table: {e}")
+
+    def run(files, environ, priority):
+        opened = []
+
+        class _F(PyNative):
+            def __init__(self, path):
+                self.path = str(path)
+                opened.append(self.path)
+                if self.path not in files:
+                    raise Raised(f"FileNotFoundError: {self.path}")
+
+            def __enter__(self):
+                return self
+
+            def __exit__(self, *a):
+                return False
+
+        it = Interp(repo, load_classes(repo), primary=OPTIONS)
+        it.overrides["Path"] = _PyCall(lambda *a: _P(*a))
+        it.overrides["Path.home"] = _PyCall(lambda: _P("/home/u"))
+        it.overrides["Path.cwd"] = _PyCall(lambda: _P("/work"))
+        it.overrides["os.getcwd"] = _PyCall(lambda: "/work")
+        it.overrides["os.path.join"] = _PyCall(lambda *a: str(_P(*a)))
+        it.overrides["os.path.expanduser"] = _PyCall(lambda p_: str(p_).replace("~", "/home/u"))
+        it.overrides["os.getenv"] = _PyCall(lambda k, default=None: environ.get(k, default))
+        it.overrides["os.environ.get"] = _PyCall(lambda k, default=None: environ.get(k, default))
+        it.overrides["os.environ"] = dict(environ)
+        it.overrides["open"] = _PyCall(lambda p_, *a, **k: _F(p_))
+        it.overrides["json.load"] = _PyCall(lambda f_: dict(files[f_.path]))
+        it.overrides["logger"] = Node("Logger", info=_PyCall(lambda *a: None), debug=_PyCall(lambda *a: None), setLevel=_PyCall(lambda *a: None))
+        it.overrides["pprint.pformat"] = _PyCall(lambda *a, **k: "")
+        for t_ in ("str", "float", "int", "bool"):
+            it.overrides.setdefault(t_, t_)
+        out = it.call_f(go, [priority] if priority is not None else [])
+        return out, opened
+
+    user_xdg, user_home, pwd = "/xdg/ffcx/ffcx_options.json", "/home/u/.config/ffcx/ffcx_options.json", "/work/ffcx_options.json"
+    U = {"verbosity": 10, "epsilon": 1.0, "table_rtol": 5.0}
+    W = {"epsilon": 2.0, "table_rtol": 6.0}
+    PR = {"table_rtol": 7.0}
+    scenarios = [
+        ("update-order", {user_xdg: U, pwd: W}, {"XDG_CONFIG_HOME": "/xdg"}, PR, {**defaults, **U, **W, **PR}),
+        ("update-order:no-priority", {user_xdg: U, pwd: W}, {"XDG_CONFIG_HOME": "/xdg"}, None, {**defaults, **U, **W}),
+        ("defaults-first", {}, {"XDG_CONFIG_HOME": "/xdg"}, None, dict(defaults)),
+        ("priority-guard", {}, {}, {"scalar_type": "complex128"}, {**defaults, "scalar_type": "complex128"}),
+        ("tuple-order:user-file-under-home-config", {user_home: U}, {}, None, {**defaults, **U}),
+        ("tuple-order:pwd-file-only", {pwd: W}, {}, None, {**defaults, **W}),
+        ("file-name:xdg-is-not-home", {user_home: U}, {"XDG_CONFIG_HOME": "/xdg"}, None, dict(defaults)),
+    ]
+    for label, files, environ, prio, want in scenarios:
+        key = f"{go.key}:{label}"
+        res.ob(key)
+        try:
+            got, opened = run(files, environ, prio)
+        except Raised as e:
+            res.fail(key, f"get_options raises ({e.what}) with option files {sorted(files)} and priority options {prio}", m.line(go.node))
             continue
-        for st in ast.walk(w):
-            if isinstance(st, ast.Assign) and isinstance(st.value, ast.Call) and (call_name(st.value) or "").endswith("load"):
-                for t in st.targets:
-                    if isinstance(t, ast.Name):
-                        path_of[t.id] = sl.text(opened)
-    key = f"{lo.key}:tuple-order"
-    res.ob(key)
-    t1 = path_of.get(getattr(first, "id", ""), "")
-    t2 = path_of.get(getattr(second, "id", ""), "")
-    if not ("XDG_CONFIG_HOME" in t1 and "cwd" in t2):
-        res.fail(key, f"_load_options returns ({ast.unparse(first)}, {ast.unparse(second)}) read from [{t1[:60]}] and [{t2[:60]}]: "
-                 "expected (user config under XDG_CONFIG_HOME, $PWD config)", m.line(rets[0]))
-    for nm, txt, want in ((first, t1, "ffcx_options.json"), (second, t2, "ffcx_options.json")):
-        k2 = f"{lo.key}:file-name:{ast.unparse(nm)}"
-        res.ob(k2)
-        if want not in txt:
-            res.fail(k2, f"{ast.unparse(nm)} is not read from a file named {want}", m.line(lo.node))
-    # get_options
-    cfg = CFG(go.node)
-    gsl = Slicer(go.node)
-    ret = [n for n in walk_no_nested(go.node) if isinstance(n, ast.Return)]
-    if len(ret) != 1 or not isinstance(ret[0].value, ast.Name):
-        raise AnalysisError("get_options does not return a single dict variable")
-    dvar = ret[0].value.id
-    updates = [c for c in calls_in(go.node) if isinstance(c.func, ast.Attribute) and c.func.attr == "update"
-               and isinstance(c.func.value, ast.Name) and c.func.value.id == dvar]
-    unpack = None
-    for n in walk_no_nested(go.node):
-        if isinstance(n, ast.Assign) and isinstance(n.value, ast.Call) and (call_name(n.value) or "").endswith("_load_options") \
-                and isinstance(n.targets[0], ast.Tuple):
-            unpack = [e.id for e in n.targets[0].elts if isinstance(e, ast.Name)]
-    if unpack is None or len(unpack) != 2:
-        raise AnalysisError("get_options: `(user, pwd) = _load_options()` not found")
-    prio = go.params[0] if go.params else None
-    order = []
-    for c in updates:
-        a = c.args[0] if c.args else None
-        nm = a.id if isinstance(a, ast.Name) else ast.unparse(a) if a is not None else "?"
-        role = "user" if nm == unpack[0] else "pwd" if nm == unpack[1] else "priority" if nm == prio else f"other({nm})"
-        order.append((role, _node_containing(cfg, c)))
-    key = f"{go.key}:update-order"
-    res.ob(key)
-    roles = [r for r, _ in order]
-    if roles != ["user", "pwd", "priority"]:
-        res.fail(key, f"options are merged in the order defaults -> {' -> '.join(roles)}; required defaults -> user -> pwd -> priority",
-                 m.line(go.node))
-    else:
-        for (r1, n1), (r2, n2) in zip(order, order[1:]):
-            if not cfg.dominates(n1.id, n2.id):
-                res.fail(key, f"update({r2}) can run without update({r1}) before it", m.line(n2.ast))
-    # defaults are written before the first update and for every option
-    key = f"{go.key}:defaults-first"
-    res.ob(key)
-    dloops = [n for n in walk_no_nested(go.node) if isinstance(n, ast.For) and "FFCX_DEFAULT_OPTIONS" in ast.unparse(n.iter)]
-    if not dloops:
-        res.fail(key, "defaults are not loaded from FFCX_DEFAULT_OPTIONS", m.line(go.node))
-    else:
-        dl = dloops[0]
-        stores = [s for s in ast.walk(dl) if isinstance(s, ast.Assign) and isinstance(s.targets[0], ast.Subscript)
-                  and isinstance(s.targets[0].value, ast.Name) and s.targets[0].value.id == dvar]
-        if not stores:
-            res.fail(key, "the loop over FFCX_DEFAULT_OPTIONS does not store into the option dict", m.line(dl))
-        else:
-            # value must be element [1] of the option tuple
-            tgt = dl.target
-            val = stores[0].value
-            ok = False
-            if isinstance(tgt, ast.Tuple) and len(tgt.elts) == 2 and isinstance(tgt.elts[1], ast.Tuple) and isinstance(val, ast.Name):
-                names = [getattr(e, "id", None) for e in tgt.elts[1].elts]
-                ok = val.id in names and names.index(val.id) == 1
-            if not ok:
-                res.fail(key, f"default stored is `{ast.unparse(val)}`, not the second entry (the default value) of the option tuple", m.line(stores[0]))
-            if order and not cfg.dominates(cfg.stmt_nodes_containing(stores[0])[0].id, order[0][1].id) and False:
-                pass
-            first_update = order[0][1] if order else None
-            head = [n for n in cfg.nodes if n.ast is dl and n.label == "for-head"]
-            if first_update is not None and head and not cfg.dominates(head[0].id, first_update.id):
-                res.fail(key, "a file/priority update can run before the defaults are written (defaults would override it)", m.line(dl))
-    key = f"{go.key}:priority-guard"
-    res.ob(key)
-    if order and order[-1][0] == "priority":
-        n = order[-1][1]
-        # guarded only by `priority is not None`
-        guards = [st for tid, st in cfg.if_stmt.items() if n.id in cfg.reachable(next(iter(cfg.if_true[tid]), -1)) ] if False else []
+        if not isinstance(got, dict):
+            res.fail(key, f"get_options returns {type(got).__name__}", m.line(go.node))
+            continue
+        if got != want:
+            diff = {k_: (got.get(k_, '<missing>'), want.get(k_, '<absent>')) for k_ in sorted(set(got) | set(want)) if got.get(k_, '<missing>') != want.get(k_, '<absent>')}
+            res.fail(key, f"with user file {files.get(user_xdg, files.get(user_home))}, $PWD file {files.get(pwd)} and priority options {prio} the merged options differ "
+                     f"from the documented precedence defaults < user file < $PWD file < priority options: {{option: (got, expected)}} = {diff} "
+                     f"(files opened: {opened})", m.line(go.node))
     # option table well-formed: every default passes its own choices
     table = m.assign("FFCX_DEFAULT_OPTIONS")
     try:
@@ -471,11 +471,32 @@ def suffix_arity(repo, res):
     fmod = repo.mod("ffcx.formatting")
     fc = fmod.func("format_code")
     res.functions.add(fc.key)
-    key = f"{fc.key}:column-wise"
-    res.ob(key)
-    src = ast.unparse(fc.node)
-    if not re.search(r"for block in code_blocks", src) or not re.search(r"code\[i\]\s*\+=\s*''\.join\(\[?c\[i\] for c in block", src):
-        res.fail(key, "format_code no longer appends, block by block, the i-th component of every entry to file i", fmod.line(fc.node))
+    from ..absint import Interp, Node, PyNative, Raised, _PyCall
+    from ..lnodes_model import load_classes
+
+    def fresh():
+        it_ = Interp(repo, load_classes(repo), primary="ffcx.formatting")
+        it_.overrides["logger"] = Node("Logger", info=_PyCall(lambda *a: None), debug=_PyCall(lambda *a: None))
+        return it_
+
+    block_samples = {
+        "header+source, empty forms block": ([("h0", "s0")], [("h1", "s1"), ("h2", "s2")], [], [("h3", "s3")], [("h4", "s4")]),
+        "single file": ([("p0",)], [("p1",), ("p2",)], [("p3",)], [], [("p4",)]),
+        "three files": ([("a0", "b0", "c0")], [], [("a1", "b1", "c1")], [], [("a2", "b2", "c2")]),
+    }
+    for label, blocks in block_samples.items():
+        key = f"{fc.key}:column-wise:{label}"
+        res.ob(key)
+        nfiles = len(blocks[0][0])
+        want = ["".join(c[i] for block in blocks for c in block) for i in range(nfiles)]
+        try:
+            got = fresh().call_f(fc, [tuple(list(b_) for b_ in blocks)])
+            got = list(got)
+        except Raised as e:
+            got = f"raises {e.what}"
+        if got != want:
+            res.fail(key, f"format_code on `{label}` gives {got}; file i must be the i-th component of every entry, block by block, in order: {want}",
+                     fmod.line(fc.node))
     cg = repo.mod("ffcx.codegeneration.codegeneration")
     cb = cg.cls("CodeBlocks")
     fields = [st.target.id for st in cb.body if isinstance(st, ast.AnnAssign)]
@@ -503,15 +524,63 @@ def suffix_arity(repo, res):
     if not rets or "mod.file.suffixes" not in ast.unparse(rets[0].value):
         res.fail(key, "generate_code does not return the suffixes of the backend module that generated the code", cg.line(gc.node))
     wc = fmod.func("write_code")
-    key = f"{wc.key}:strict-zip"
-    res.ob(key)
-    z = [c for c in calls_in(wc.node) if call_name(c) == "zip"]
-    if not z or not (kwarg(z[0], "strict") is not None and getattr(kwarg(z[0], "strict"), "value", False) is True):
-        res.fail(key, "write_code pairs files and suffixes without strict=True: a missing file is silently dropped", fmod.line(wc.node))
+    class _P(PyNative):
+        def __init__(self, p_):
+            self.p = str(p_)
+
+        def __truediv__(self, o):
+            return _P(self.p.rstrip("/") + "/" + str(o))
+
+        def __str__(self):
+            return self.p
+
+        def __fspath__(self):
+            return self.p
+
+    def run_write(code, suffixes):
+        written = {}
+
+        class _F(PyNative):
+            def __init__(self, p_, mode="r", **k):
+                self.p, self.mode = str(p_), mode
+                if "w" in mode:
+                    written[self.p] = ""
+
+            def write(self, t):
+                if "w" not in self.mode and "a" not in self.mode:
+                    raise Raised("io.UnsupportedOperation: not writable")
+                written[self.p] = written.get(self.p, "") + t
+
+            def close(self):
+                pass
+
+            def __enter__(self):
+                return self
+
+            def __exit__(self, *a):
+                return False
+        it_ = fresh()
+        for nm in ("Path", "pathlib.Path"):
+            it_.overrides[nm] = _PyCall(lambda p_: _P(p_))
+        it_.overrides["open"] = _PyCall(lambda p_, mode="r", **k: _F(p_, mode))
+        it_.overrides["os.path.join"] = _PyCall(lambda *a: "/".join(str(x).rstrip("/") for x in a))
+        try:
+            it_.call_f(wc, [list(code), "pre", tuple(suffixes), "out"])
+        except Raised as e:
+            return f"raises {e.what}"
+        return written
+
     key = f"{wc.key}:path"
     res.ob(key)
-    if not re.search(r"Path\(output_dir\)\s*/\s*\(prefix \+ suffix\)", ast.unparse(wc.node)):
-        res.fail(key, "write_code does not write <output_dir>/<prefix><suffix>", fmod.line(wc.node))
+    got = run_write(["HEADER", "SOURCE"], (".h", ".c"))
+    if got != {"out/pre.h": "HEADER", "out/pre.c": "SOURCE"}:
+        res.fail(key, f"write_code(['HEADER', 'SOURCE'], 'pre', ('.h', '.c'), 'out') writes {got}; expected out/pre.h and out/pre.c with the "
+                 "header and the source", fmod.line(wc.node))
+    key = f"{wc.key}:strict-zip"
+    res.ob(key)
+    got = run_write(["HEADER", "SOURCE"], (".h",))
+    if not (isinstance(got, str) and got.startswith("raises")):
+        res.fail(key, f"write_code with two texts and one suffix writes {got} instead of failing: a missing file is silently dropped", fmod.line(wc.node))
 
 
 @rule(
